@@ -237,7 +237,9 @@ func (s *Scope) Eval(e Expr) Term {
 				}
 			}
 		}
+		x.noFacts++
 		body := c.EvalBool(e.Body)
+		x.noFacts--
 		q := "forall"
 		if e.Forall {
 			body = Implies(And(guards...), body)
@@ -250,7 +252,9 @@ func (s *Scope) Eval(e Expr) Term {
 			for _, tg := range e.Triggers {
 				var ts []string
 				for _, te := range tg {
+					x.noFacts++
 					ts = append(ts, c.Eval(te).S)
+					x.noFacts--
 				}
 				pats = append(pats, ":pattern ("+strings.Join(ts, " ")+")")
 			}
@@ -293,7 +297,7 @@ func (s *Scope) Eval(e Expr) Term {
 		}
 		r := w.MkSeq(b.Sort, w.SeqBase(b), Arith("+", w.SeqOff(b), lo), Arith("-", hi, lo))
 		r.GoT = b.GoT
-		return r
+		return x.sliceFacts(r, b, lo)
 	case ESel:
 		// package-qualified name?
 		if id, ok := e.X.(EIdent); ok {
@@ -476,6 +480,11 @@ func (s *Scope) evalCall(e ECall) Term {
 		case "gdiv":
 			as := args()
 			return T("(gdiv "+as[0].S+" "+as[1].S+")", SInt)
+		case "zeros": // zeros(n): sequence of n zero bytes
+			n := s.Eval(e.Args[0])
+			so := w.SeqSort(SInt)
+			r := w.MkSeq(so, ConstArray(ArraySort(SInt, SInt), IntLit(0)), IntLit(0), n)
+			return r
 		case "sqrt":
 			return T("(sqrtU "+ToReal(s.Eval(e.Args[0])).S+")", SReal)
 		}
@@ -587,6 +596,22 @@ func (x *Exec) defineSpec(sf *SpecFunc) string {
 		sc.locals[p.Name] = v
 	}
 	ret := x.resolveTypeName(sf.Ret, sf.Pkg)
+	x.noFacts++
+	defer func() { x.noFacts-- }()
+	if sf.Opaque {
+		x.W.defSeen[name] = true
+		var sorts, names []string
+		for _, f := range formals {
+			parts := strings.SplitN(strings.Trim(f, "()"), " ", 2)
+			names = append(names, parts[0])
+			sorts = append(sorts, parts[1])
+		}
+		body := x.coerce(sc.Eval(sf.Body), ret.sort)
+		appl := "(" + name + " " + strings.Join(names, " ") + ")"
+		x.W.defs = append(x.W.defs, fmt.Sprintf("(declare-fun %s (%s) %s)", name, strings.Join(sorts, " "), ret.sort))
+		x.W.defs = append(x.W.defs, fmt.Sprintf("(assert (forall (%s) (! (= %s %s) :pattern (%s))))", strings.Join(formals, " "), appl, body.S, appl))
+		return name
+	}
 	if sf.Rec {
 		x.W.defSeen[name] = true // allow self reference
 		body := x.coerce(sc.Eval(sf.Body), ret.sort)
